@@ -23,12 +23,16 @@ AllGroupBys == {<<>>, <<"host">>, <<"*">>, <<"^h">>, <<".*">>, <<"zz">>, <<"o">>
                 <<"time", "*">>, <<"*::tag">>, <<"host", "region">>, <<"a">>, <<"time", "^h">>}
 AllExtras == {"", "a", "c", "x", "host", "b::float", "host::tag", "c::field", "host::field", "x::field", "mean(b)",
               "max(c) AS mc", "a AS aa", "a+b", "(c)*2", "a,b::integer"}
-Subs1 == {"s_ab", "s_star", "s_calls", "s_alias2", "s_stargb", "s_x", "s_fld", "s_dimall"}
+Subs1 == {"s_ab", "s_star", "s_calls", "s_alias2", "s_stargb", "s_x", "s_fld", "s_dimall", "s_ahost"}
 Subs2 == {"s2_ab_star", "s2_star_calls", "s2_star_dimall", "s2_c_stargb"}
+\* the same measurement name under two databases; a name that is a field column of one subquery and a GROUP BY tag of another
+DbSrcs == {<<"d1..m1">>, <<"d1..m1", "d2..m1">>, <<"d2..m1", "d1..m1">>, <<"m1", "d1..m1">>, <<"d2..m1", "m1", "d1..m1">>}
+SubTypeSrcs == {<<"s_ahost", "s_calls">>, <<"s_calls", "s_ahost">>, <<"s_ahost", "s_alias2">>, <<"s_alias2", "s_ahost">>, <<"m1", "s_ahost">>, <<"s_ahost", "m1">>}
 AllSrcs == {<<"m1">>, <<"m2">>, <<"m1", "m2">>, <<"m2", "m1">>, <<"m3">>} \cup {<<s>> : s \in Subs1 \cup Subs2}
            \cup {<<"m1", "s_calls">>, <<"s_ab", "m2">>, <<"s_star", "s_alias2">>, <<"m2", "s2_star_calls">>}
+           \cup DbSrcs \cup SubTypeSrcs
 AllConds == {"none", "b>1", "host", "and", "typed"}
-AllSchemas == (1..18) \cup (100..135) \cup (200..219) \cup (300..303)
+AllSchemas == (1..18) \cup (100..135) \cup (200..219) \cup (300..303) \cup {400, 401}
 AllUnspec == {<<"*", "arg2", "", "">>, <<"a|b", "arg2", "", "">>, <<"*", "bin", "", "">>, <<"a|b", "bin", "", "">>,
               <<"*", "binw", "", "">>, <<"*", "paren", "", "">>, <<"*::tag", "arg", "mean", "">>,
               <<"*::tag", "arg", "count", "">>, <<"*::tag", "nest", "max", "mean">>}
@@ -124,6 +128,22 @@ Q_multicall_Srcs == OnlyM1
 Q_multicall_Conds == NoCond
 Q_multicall_Schemas == {5, 13, 18}
 
+Q_dbs_Cores == {F("*"), F("*::field"), F("a|b"), A("*", "count"), A("*", "min"), Plain}
+Q_dbs_GroupBys == {<<>>, <<"*">>, <<"host">>}
+Q_dbs_Befores == {"", "a"}
+Q_dbs_Afters == None
+Q_dbs_Srcs == DbSrcs
+Q_dbs_Conds == NoCond
+Q_dbs_Schemas == {400, 401}
+
+Q_subtypes_Cores == {Plain, F("*")}
+Q_subtypes_GroupBys == {<<>>, <<"host">>}
+Q_subtypes_Befores == {"", "host", "mx", "host::tag"}
+Q_subtypes_Afters == {"", "b"}
+Q_subtypes_Srcs == SubTypeSrcs
+Q_subtypes_Conds == {"none", "host"}
+Q_subtypes_Schemas == {4, 6}
+
 \* more than 12 expanded columns (sort.Sort leaves insertion sort), a tag of the name of a field among them
 Q_wide_Cores == {F("*"), F("*::field"), F("*::tag"), F(".*"), A("*", "count"), Plain}
 Q_wide_GroupBys == {<<>>, <<"host">>, <<"a">>}
@@ -134,6 +154,22 @@ Q_wide_Conds == NoCond
 Q_wide_Schemas == 300..303
 
 \* ------------------------------------------------------------------ thorough
+T_dbs_Cores == {F("*"), F("*::field"), F("*::tag"), F("a|b"), F(".*"), A("*", "count"), A("*", "min"), A("a|b", "mean"), N("*", "max", "mean"), Plain}
+T_dbs_GroupBys == {<<>>, <<"*">>, <<"host">>, <<"^h">>, <<"time", "host">>}
+T_dbs_Befores == {"", "a", "b::float"}
+T_dbs_Afters == {"", "c"}
+T_dbs_Srcs == DbSrcs
+T_dbs_Conds == {"none", "b>1"}
+T_dbs_Schemas == {400, 401, 4}
+
+T_subtypes_Cores == {Plain, F("*"), F("a|b"), A("*", "max")}
+T_subtypes_GroupBys == {<<>>, <<"host">>, <<"*">>}
+T_subtypes_Befores == {"", "host", "mx", "host::tag", "a"}
+T_subtypes_Afters == {"", "b", "host"}
+T_subtypes_Srcs == SubTypeSrcs
+T_subtypes_Conds == {"none", "host"}
+T_subtypes_Schemas == {4, 6, 13}
+
 T_wide_Cores == {F("*"), F("*::field"), F("*::tag"), F(".*"), F("a|b"), A("*", "count"), A(".*", "max"), N("*", "max", "mean"), Plain}
 T_wide_GroupBys == {<<>>, <<"host">>, <<"a">>, <<"*">>, <<".*">>, <<"time", "host">>}
 T_wide_Befores == {"", "a", "host::tag"}
